@@ -39,6 +39,7 @@ typedef struct {
     int timed_pct;
 } cctx_t;
 
+static int c_far_deadline;
 static int c_cases, c_waits, c_timedwaits, c_timeouts, c_signals, c_broadcasts,
     c_success, c_rewaits, c_past_deadline, c_ext_waits, c_shapes, c_steps,
     c_fifo_head, c_fifo_other, c_inv_mutex, c_sig_empty, c_distinct;
@@ -86,11 +87,17 @@ static void consumer_body(actor_t *a)
                     vrt_count(c_past_deadline, 1);
                 } else if (kind == 1) {
                     deadline = now;
+                } else if (kind <= 3) {
+                    /* far future: behaves like an untimed wait, so a signal
+                     * lost between releasing the mutex and enqueueing shows
+                     * as a waiter that sleeps although tokens are there */
+                    deadline = now + ((int64_t)1 << 50);
+                    vrt_count(c_far_deadline, 1);
                 } else {
                     deadline = now + 20000 + (int64_t)vrt_range(&a->rng, 3000000);
                 }
                 struct timespec ts = vclock_ts(deadline);
-                vrt_actor_set(a->vid, VRT_A_RUNNING, "cond_timedwait");
+                vrt_actor_set(a->vid, kind == 2 || kind == 3 ? VRT_A_BLOCKED : VRT_A_RUNNING, "cond_timedwait");
                 rc = ABT_cond_timedwait(c->c, c->m, &ts);
                 vrt_count(c_timedwaits, 1);
             } else {
@@ -628,6 +635,7 @@ int main(int argc, char **argv)
     c_success = vrt_counter("wakeups");
     c_rewaits = vrt_counter("rewaits_token_taken_by_other");
     c_past_deadline = vrt_counter("deadline_in_past");
+    c_far_deadline = vrt_counter("deadline_far_future_in_soup");
     c_ext_waits = vrt_counter("waits_by_external");
     c_shapes = vrt_counter("shapes");
     c_steps = vrt_counter("script_steps");
